@@ -134,8 +134,20 @@ func (hs *Hosts) Match(r *http.Request, ctx *types.Context) bool {
 		h = h[1 : len(h)-1]
 	}
 
+	var before map[string]string // 查找之前已经存在的参数
+	if ctx.Count() > 0 {
+		before = make(map[string]string, ctx.Count())
+		ctx.Range(func(k, v string) { before[k] = v })
+	}
+
 	ctx.Path = strings.ToLower(h)
 	_, _, exists := hs.tree.Handler(ctx, http.MethodGet)
+
+	for k, v := range before { // 被放弃的分支会删除同名的参数，此处还原。
+		if !ctx.Exists(k) {
+			ctx.Set(k, v)
+		}
+	}
 	return exists
 }
 
